@@ -44,6 +44,7 @@ type Obligation struct {
 	By       []string
 	smtQF, smtNear, smtLemmas string
 	qfModel  string
+	Wall     float64 // seconds in the discharger, all stages
 	RelaxedModel bool
 	Slow     bool
 	Reveal   []string
